@@ -72,7 +72,7 @@ PROPS = {
               {'roundtrip': False, 'accessors': True, 'message': False}),
     'C17': _p(['script', 'script', 'mixed'], ['C17.script', 'C17.body'], RULE_STATE, 3000, 200000,
               {'roundtrip': False, 'accessors': True, 'message': False}),
-    'C18': _p(['sources'] * 14 + ['bigbatch'], ['C18.source', 'C18.reader', 'C18.listing', 'C18.collection'], RULE_BATCH, 2500, 150000, _STEP),
+    'C18': _p(['sources'] * 14 + ['bigbatch'], ['C18.source', 'C18.reader', 'C18.listing', 'C18.collection'], RULE_BATCH, 7000, 150000, _STEP),
     'C19': _p(['cli'], ['C19.detect', 'C19.inspect', 'C19.merge'], RULE_CLI, 2500, 150000, _STEP),
     'C20': _p(['mixed', 'story', 'item'], ['C20.ids', 'C20.content', 'C20.inspect'], RULE_STEP, 4000, 300000,
               {'roundtrip': False, 'accessors': False, 'message': True}),
